@@ -41,6 +41,12 @@ type cfg struct {
 	respEst        int
 }
 
+// String keeps pointers (the zone of a netip.Addr) out of the trace.
+func (c cfg) String() string {
+	return fmt.Sprintf("{limit4:%d limit6:%d ivl4:%v ivl6:%v len4:%d len6:%d period:%v duration:%v backoffCount:%d refuseANY:%v allow:%v respEst:%d}",
+		c.limit4, c.limit6, c.ivl4, c.ivl6, c.len4, c.len6, c.period, c.duration, c.backoffCount, c.refuseANY, fmt.Sprint(c.allow), c.respEst)
+}
+
 type refModel struct {
 	c    cfg
 	keys map[string]*keyState
@@ -222,7 +228,7 @@ func run(s *kernel.Sim, _, batch string) {
 		}
 	}
 
-	s.Logf("config %+v", c)
+	s.Logf("config %v", c)
 
 	var persistent, dynamic []netip.Prefix
 	if len(c.allow) > 0 {
@@ -352,7 +358,7 @@ func run(s *kernel.Sim, _, batch string) {
 				kind = "query answered that must be dropped (" + why + ")"
 			}
 			s.Failf("C09/decision", kind,
-				"event %d at t=%v client %s key %s qtype %d: dropped=%v, reference says dropped=%v (%s); config %+v",
+				"event %d at t=%v client %s key %s qtype %d: dropped=%v, reference says dropped=%v (%s); config %v",
 				i, now.Sub(time.Date(2000, 1, 1, 0, 0, 0, 0, time.UTC)), ip, m.key(ip), qt, gotDrop, wantDrop, why, c)
 
 			return
